@@ -27,6 +27,9 @@ POOLS = {
     "tm": [None, "1970-01-01T00:00:00.001", "1969-12-31T23:59:59", "2020-12-31T12:00:00"],
     "ts": [None, "1970-01-01T00:00:01", "1969-12-31T23:59:59", "2020-12-31T12:00:00"],
     "td": [None, 0, 1, -5, 86400],
+    # nanosecond timestamps: neighbours within one microsecond, on both sides of the epoch
+    "tn": [None, "1970-01-01T00:00:00.000000001", "1970-01-01T00:00:00.000000002", "2020-12-31T12:00:00.000000500",
+           "2020-12-31T12:00:00.000000499", "2020-12-31T12:00:00.000001", "1969-12-31T23:59:59.999999999", "2020-12-31T12:00:00"],
     "o": [None, "a", "b", "ab", "B", "None", "nan"],
     "oi": [None, 1, 2, 3],
     "ob": [None, True, False],
@@ -42,7 +45,8 @@ TIGHT = {
     "f": [NAN, 0.0, -0.0, 1.0, INF], "i": [0, 1, 2**53, 2**53 + 1], "b": [True, False],
     "s": ["", "a", "b", P49 + "a", "a\x00"], "u": ["", "a", "b"], "d": [None, "1970-01-01", "2020-12-31"],
     "t": [None, "1970-01-01T00:00:00.000001", "2020-12-31T12:00:00"], "tm": POOLS["tm"][:3], "ts": POOLS["ts"][:3],
-    "td": [None, 0, 1], "o": [None, "a", "b"], "oi": [None, 1, 2], "ob": [None, True, False], "y": ["a", "b"],
+    "td": [None, 0, 1], "tn": [None, "2020-12-31T12:00:00.000000500", "2020-12-31T12:00:00.000000499", "2020-12-31T12:00:00.000001"],
+    "o": [None, "a", "b"], "oi": [None, 1, 2], "ob": [None, True, False], "y": ["a", "b"],
     "i8": [-128, 0, 127], "u8": [0, 1, 255], "f32": [NAN, 0.0, 1.0, 0.5], "i32": [0, 1, 2**31 - 1],
 }
 
@@ -61,6 +65,8 @@ TAILS = {
     "tm": _datetimes.map(lambda x: x.replace(microsecond=(x.microsecond // 1000) * 1000).isoformat(timespec="milliseconds")),
     "ts": _datetimes.map(lambda x: x.replace(microsecond=0).isoformat(timespec="seconds")),
     "td": st.integers(-10**9, 10**9),
+    "tn": st.tuples(st.datetimes(min_value=datetime.datetime(1700, 1, 1), max_value=datetime.datetime(2200, 1, 1)), st.integers(0, 999)).map(
+        lambda p: p[0].isoformat(timespec="microseconds") + "%03d" % p[1]),
     "o": st.text(alphabet="abcAB é", max_size=4),
     "oi": st.integers(-9, 9),
     "ob": st.booleans(),
@@ -71,7 +77,7 @@ TAILS = {
     "i32": st.integers(-2**31, 2**31 - 1),
 }
 
-NA_VALUE = {"f": NAN, "f32": NAN, "s": "", "u": "", "d": None, "t": None, "tm": None, "ts": None, "td": None,
+NA_VALUE = {"f": NAN, "f32": NAN, "s": "", "u": "", "d": None, "t": None, "tm": None, "ts": None, "tn": None, "td": None,
             "o": None, "oi": None, "ob": None}
 
 
@@ -80,6 +86,7 @@ NA_VALUE = {"f": NAN, "f32": NAN, "s": "", "u": "", "d": None, "t": None, "tm": 
 TWINS = {
     "f": [NAN, -1.0, -2.0, 0.5, 2.0**60, INF, 314159.0], "f32": [NAN, -1.0, -2.0], "i": [-1, -2, 0, 2**61 - 1, 2**61],
     "i32": [-1, -2, 0], "i8": [-1, -2, 0], "d": [None, "1969-12-31", "1969-12-30"], "td": [None, -1, -2],
+    "tn": [None, "1969-12-31T23:59:59.999999999", "1969-12-31T23:59:59.999999998"],
     "t": [None, "1969-12-31T23:59:59.999999", "1969-12-31T23:59:59.999998"], "oi": [None, -1, -2],
 }
 
